@@ -352,6 +352,28 @@ def slot_memos(ctx, fn, ps):
     return out
 
 
+def read_marker(ctx, p):
+    """'READ: ' when everything the path did was read to the end - no value applied as a function, no call of a function this tree introduces left un-followed,
+    no havoc in its conditions - so that NOT finding a step on it is a finding; '' otherwise (see report.Ctx.violation)"""
+    try:
+        new = {n_ for ns_ in ctx.M.new_definitions().values() for n_ in ns_}
+    except Exception:
+        new = set()
+    for e in p.flat_events():
+        if e.kind == 'call':
+            if any(c in ('ext:APPLY',) for c in e.callee):
+                return ''
+            if any(c.split('.')[-1] in new for c in e.callee):
+                return ''
+            # a method call the typing did not resolve although the package defines a method of that name: what it did is unknown
+            from .model import CONTAINER_METHODS
+            if any(c.startswith('meth:') and c[5:] not in CONTAINER_METHODS and ctx.M.cha(c[5:]) for c in e.callee):
+                return ''
+    for c, v, _ in p.conds:
+        if any(s_[0] in ('havoc',) or (s_[0] == 'call' and s_[1][0] == 'fn' and s_[1][1].split('.')[-1].split('|')[0] in new) for s_ in T.subterms(c)):
+            return ''
+    return 'READ: '
+
 def ctor_keeps_argument(ctx, rule, cname, p, fld, what, key):
     """after construction (accepting path p of the constructor) the logical field `fld` holds the constructor argument of that name, unmodified: written as
     such - or kept somewhere else (a helper object, a table of settings) and read back through a property of that name, in which case the property is asked"""
